@@ -6,8 +6,11 @@
    the first line of its argument only and the loop visits every line start whose
    line begins with "-- ", the scan is a classification of lines; the model is
    written that way: split into lines, decide [marker_line] per line, regroup.
-   The tie to the Go code is the correspondence run (harness/cmd/txtar), not this
-   comment. *)
+   That argument is not trusted: TxtarIndex.v models the index loop statement by
+   statement (checked index/slice expressions, fuel) and TxtarIndexFacts.v proves
+   parse_idx s = Ok (parse s) and needs_quote_idx d = Ok (needs_quote d) for every
+   byte string.  Both models are compared with the Go code by the correspondence
+   run (harness/cmd/txtar). *)
 From Coq Require Import List Bool Arith.
 From Coq.Strings Require Import Byte.
 From GI Require Import Lib.Bytes Gen.TxtarConsts.
